@@ -151,12 +151,19 @@ fn run_qs(cap: usize, blocked: usize, ops: &str) -> String {
         (Ok(e), Ok(d)) => (e, d),
         _ => return "init-err".to_string(),
     };
-    let mut eq: Vec<u8> = Vec::new(); // encoder stream, undelivered
-    let mut dq: Vec<u8> = Vec::new(); // decoder stream, undelivered
+    let mut eq: Vec<u8> = Vec::new(); // encoder stream, not yet handed over
+    let mut dq: Vec<u8> = Vec::new(); // decoder stream, not yet handed over
+    let mut etail: Vec<u8> = Vec::new(); // handed to the decoder, not consumed (incomplete instruction)
+    let mut dtail: Vec<u8> = Vec::new(); // handed to the encoder, not consumed
     let mut secs: Vec<(u64, Vec<u8>, bool)> = Vec::new(); // stream, block, done
     let mut out: Vec<String> = Vec::new();
     for op in ops.split(',').filter(|o| !o.is_empty()) {
-        let letter = op[..1].to_uppercase();
+        let letter = match &op[..1] {
+            "b" => "B".to_string(),
+            "i" => "I".to_string(),
+            "k" => "K".to_string(),
+            x => x.to_string(),
+        };
         let rest = &op[1..];
         let r = catch_unwind(AssertUnwindSafe(|| -> String {
             match &op[..1] {
@@ -203,19 +210,28 @@ fn run_qs(cap: usize, blocked: usize, ops: &str) -> String {
                         Err(x) => format!("E:err:{}", code(&x)),
                     }
                 }
-                "I" => {
+                "I" | "i" => {
                     let k: usize = rest.parse().unwrap();
-                    let lens: Vec<usize> = parse_encoder_stream(&eq)
-                        .map(|v| v.iter().map(|(_, n)| *n).collect())
-                        .unwrap_or_default();
-                    let n = prefix_len(&lens, k);
-                    let now: Vec<u8> = eq.drain(..n).collect();
+                    // everything the decoder may look at: the unconsumed tail, then the bytes still in flight
+                    let mut all = etail.clone();
+                    all.extend_from_slice(&eq);
+                    let n = if &op[..1] == "I" {
+                        let lens: Vec<usize> = parse_encoder_stream(&all)
+                            .map(|v| v.iter().map(|(_, n)| *n).collect())
+                            .unwrap_or_default();
+                        prefix_len(&lens, k).max(etail.len())
+                    } else {
+                        (etail.len() + k).min(all.len())
+                    };
+                    let now: Vec<u8> = all[..n].to_vec();
+                    eq.drain(..n - etail.len());
                     let (r, consumed, w) = dec.on_encoder_recv(&now);
                     match r {
                         Ok(ins) => {
-                            if consumed != now.len() {
+                            if &op[..1] == "I" && k > 0 && consumed != now.len() {
                                 return format!("I:consumed-{}-of-{}", consumed, now.len());
                             }
+                            etail = now[consumed..].to_vec();
                             // an increment above 64 is not accepted by the crate's own decoder: read it as a bare integer
                             let written = match parse_decoder_stream(&w) {
                                 Ok(d) => joinor(";", d.iter().map(|(i, _)| dinstrstr(i)).collect()),
@@ -228,7 +244,8 @@ fn run_qs(cap: usize, blocked: usize, ops: &str) -> String {
                                 },
                             };
                             dq.extend_from_slice(&w);
-                            format!("I:{}:{}:{}", ins, written, dstate(&dec.snapshot()))
+                            let wh = if w.is_empty() { "-".to_string() } else { hx(&w) };
+                            format!("I:{}:{}:{}:{}", ins, written, wh, dstate(&dec.snapshot()))
                         }
                         Err(x) => format!("I:{}", dec_err_word(&x)),
                     }
@@ -248,31 +265,43 @@ fn run_qs(cap: usize, blocked: usize, ops: &str) -> String {
                     }
                     match dec.decode_header(&block) {
                         Ok(d) => {
+                            let mut ack = "-".to_string();
                             if honest {
                                 secs[j].2 = true;
                                 if d.dyn_ref {
-                                    dq.extend_from_slice(&ack_header(sid));
+                                    let a = ack_header(sid);
+                                    ack = hx(&a);
+                                    dq.extend_from_slice(&a);
                                 }
                             }
-                            format!("B:ok:{}:{}", fieldsstr(&d.fields), d.dyn_ref as u8)
+                            format!("B:ok:{}:{}:{}", fieldsstr(&d.fields), d.dyn_ref as u8, ack)
                         }
                         Err(x) => format!("B:{}", dec_err_word(&x)),
                     }
                 }
-                "K" => {
+                "K" | "k" => {
                     let k: usize = rest.parse().unwrap();
-                    // when the crate's decoder cannot split the stream, everything is handed over
-                    let n = match parse_decoder_stream(&dq) {
-                        Ok(v) => prefix_len(&v.iter().map(|(_, n)| *n).collect::<Vec<usize>>(), k),
-                        Err(_) => dq.len(),
+                    let mut all = dtail.clone();
+                    all.extend_from_slice(&dq);
+                    let n = if &op[..1] == "K" {
+                        // when the crate's decoder cannot split the stream, everything is handed over
+                        match parse_decoder_stream(&all) {
+                            Ok(v) => prefix_len(&v.iter().map(|(_, n)| *n).collect::<Vec<usize>>(), k)
+                                .max(dtail.len()),
+                            Err(_) => all.len(),
+                        }
+                    } else {
+                        (dtail.len() + k).min(all.len())
                     };
-                    let now: Vec<u8> = dq.drain(..n).collect();
+                    let now: Vec<u8> = all[..n].to_vec();
+                    dq.drain(..n - dtail.len());
                     let (r, consumed) = enc.on_decoder_recv(&now);
                     match r {
                         Ok(()) => {
-                            if consumed != now.len() {
+                            if &op[..1] == "K" && k > 0 && consumed != now.len() {
                                 return format!("K:consumed-{}-of-{}", consumed, now.len());
                             }
+                            dtail = now[consumed..].to_vec();
                             format!("K:ok:{}", estate(&enc.snapshot()))
                         }
                         Err(x) => format!("K:err:{}", code(&x)),
